@@ -1,10 +1,22 @@
 #!/bin/bash
-# usage: try_seeded.sh <seeded-dir> <check-id> [tier]   -- applies the patch to /repo, runs the check, reverts
+# usage: try_seeded.sh <seeded-dir> <check-id> [tier]
+# Judges one seeded change: the patch is applied to a throw-away worktree of /repo (HEAD + /repo's uncommitted changes
+# are NOT carried over; /repo itself is never touched, so background passes keep building from a clean tree), the check is
+# pointed at it with VERIF_REPO and runs with VERIF_NO_EVIDENCE=1, the worktree is removed.
+# TRY_SEEDED_INPLACE=1 applies to /repo itself instead (git apply, run, git checkout), as the brief describes.
 D="$(cd "$1" && pwd)"; ID="$2"; TIER="${3:-quick}"
-cd /repo || exit 3
-if ! git diff --quiet; then echo "/repo has uncommitted changes, refusing" >&2; exit 3; fi
-git apply "$D/patch.diff" || { echo "patch does not apply" >&2; exit 3; }
-( cd /verif && VERIF_NO_EVIDENCE=1 ./check "$ID" "$TIER" ); rc=$?
-git -C /repo checkout -- . ; git -C /repo clean -fdq src
+if [ -n "${TRY_SEEDED_INPLACE:-}" ]; then
+  cd /repo || exit 3
+  if ! git diff --quiet; then echo "/repo has uncommitted changes, refusing" >&2; exit 3; fi
+  git apply "$D/patch.diff" || { echo "patch does not apply" >&2; exit 3; }
+  ( cd /verif && VERIF_NO_EVIDENCE=1 ./check "$ID" "$TIER" ); rc=$?
+  git -C /repo checkout -- . ; git -C /repo clean -fdq src
+  echo "try_seeded: $D on $ID -> exit $rc"; exit $rc
+fi
+WT="$(mktemp -d /tmp/try-seeded-XXXXXX)"; rmdir "$WT"
+git -C /repo worktree add -q --detach "$WT" HEAD || exit 3
+trap 'git -C /repo worktree remove --force "$WT" >/dev/null 2>&1; git -C /repo worktree prune' EXIT
+( cd "$WT" && git apply "$D/patch.diff" ) || { echo "patch does not apply" >&2; exit 3; }
+( cd "$(dirname "$0")/.." && VERIF_REPO="$WT" VERIF_NO_EVIDENCE=1 ./check "$ID" "$TIER" ); rc=$?
 echo "try_seeded: $D on $ID -> exit $rc"
 exit $rc
